@@ -206,6 +206,7 @@ type val struct {
 	ty       types.Type
 	untyped  bool // spec literal: adopts the width of the other operand
 	closure  *closureInfo
+	rowSort  string // kOpaque carrying a heap row (pure-call abstraction of a pointee object)
 }
 
 func bv(w int, n uint64) string {
